@@ -35,6 +35,7 @@ type c09Case struct {
 	accept    bool
 	uncovered []string
 	dup       bool // one arm is written twice (the copy-paste slip): counts once
+	scope     *c09Scope
 }
 
 // naming scheme 1: case names that are prefixes of one another or differ only in the case of a letter
@@ -411,7 +412,7 @@ func checkC09(c *core.Ctx) {
 	jobs := make(chan *c09Case, 1024)
 	var wg sync.WaitGroup
 	var acceptedMu sync.Mutex
-	var accepted []*c09Case
+	var accepted, acceptedScope []*c09Case
 	for w := 0; w < c.Workers; w++ {
 		wg.Add(1)
 		go func(w int) {
@@ -422,7 +423,12 @@ func checkC09(c *core.Ctx) {
 				if c.TooManyViolations() {
 					continue
 				}
-				if c09RunOne(c, fc, sc.PkgAllFoi(), dir, cs) && cs.n <= 3 && cs.host < 100 && cs.target == 0 && cs.naming == 0 && !cs.dup {
+				ok := c09RunOne(c, fc, sc.PkgAllFoi(), dir, cs)
+				if ok && cs.scope != nil {
+					acceptedMu.Lock()
+					acceptedScope = append(acceptedScope, cs)
+					acceptedMu.Unlock()
+				} else if ok && cs.n <= 3 && cs.host < 100 && cs.target == 0 && cs.naming == 0 && !cs.dup {
 					acceptedMu.Lock()
 					accepted = append(accepted, cs)
 					acceptedMu.Unlock()
@@ -472,6 +478,20 @@ func checkC09(c *core.Ctx) {
 		c.Count(0, st3.States, st3.Transitions, 0)
 		c.Set("large_unions", map[string]any{"sizes": sizes, "programs": st3.Executions - st3.Skipped})
 	}
+	{
+		sd := c09ScopeDriver()
+		var cur4 *c09Case
+		st4 := explore.Explore(-1, func(ch *explore.Chooser) { cur4 = sd(ch) }, func(ch *explore.Chooser) bool {
+			cur4.choices = append([]int{}, ch.Choices...)
+			if c.Expired() {
+				return false
+			}
+			jobs <- cur4
+			return true
+		})
+		c.Count(0, st4.States, st4.Transitions, 0)
+		c.Set("target_named_like_another_binder", map[string]any{"programs": st4.Executions - st4.Skipped, "space": "binder kind (arm payload, lambda parameter, inner-block let, local function parameter) x binder type (union sharing case names with the target's, int, unrelated union) x binder name (same as the target / other) x position of the match (later, earlier, inside the binder's scope, after the whole construct) x every non-empty arm subset x default"})
+	}
 	close(jobs)
 	wg.Wait()
 	c.Count(0, st.States, st.Transitions, 0)
@@ -480,6 +500,19 @@ func checkC09(c *core.Ctx) {
 	// accepted programs with n <= 3: compile and run on every constructor value
 	if c.ViolationCount() == 0 {
 		c09RunAccepted(c, fc, sc, accepted)
+		sort.Slice(acceptedScope, func(i, j int) bool { return fmt.Sprint(acceptedScope[i].choices) < fmt.Sprint(acceptedScope[j].choices) })
+		var wg2 sync.WaitGroup
+		for i := 0; i < len(acceptedScope); i += 100 {
+			j := min(i+100, len(acceptedScope))
+			wg2.Add(1)
+			go func(part []*c09Case) {
+				defer wg2.Done()
+				if !c.Expired() {
+					c09ExecScope(c, fc, sc, part)
+				}
+			}(acceptedScope[i:j])
+		}
+		wg2.Wait()
 	}
 }
 
